@@ -245,12 +245,12 @@ Section Machine.
       destruct H as [E | r0 P | pl E V | pl v ms out E M
                     | r0 ch f i ms out ms' resp E D N | r0 ch f i ms out E D N
                     | f i ms out E | E | k v E G | E];
-        try discriminate L; injection L as ->; cbv beta iota in F.
+        try discriminate L; injection L as <-; cbv beta iota in F.
       - auto.
-      - rewrite E in F. apply Z.ltb_ge in V. Show. lia.
+      - rewrite E in F. apply Z.ltb_ge in V. lia.
       - rewrite E in F. congruence.
-      - destruct D as [-> | ->]; [rewrite E in F; cbn [snd] in *; congruence | contradiction].
-      - destruct D as [-> | ->]; [rewrite E in F; cbn [snd] in *; congruence | contradiction].
+      - destruct D as [-> | ->]; [cbv beta iota in F; rewrite E in F; congruence | contradiction].
+      - destruct D as [-> | ->]; [cbv beta iota in F; rewrite E in F; congruence | contradiction].
       - contradiction. }
     destruct D as [P ->].
     assert (NP : ~ post (ph s)) by (revert P; destruct (ph s); cbn; tauto).
@@ -258,7 +258,6 @@ Section Machine.
     cbn [ph tr fail]. repeat split.
     - intros [X|[X|X]]; try discriminate X; tauto.
     - intros [X|[X|X]]; try discriminate X; tauto.
-    - intros l. destruct l; reflexivity.
   Qed.
 
   (* ---- versions and framing ---- *)
@@ -296,3 +295,140 @@ Section Machine.
       /\ (forall v, m = MReq K_SaslAuthenticate v -> v = auth_version p a /\ hs_version p a = 1).
   Proof. intros s R m M. exact (proj1 (version_inv s R) m M). Qed.
 End Machine.
+
+(* ------------------------------------------------------------------ *)
+Section Run.
+  Variable mstate : Type.
+  Variable mech_start : option (mstate * bytes).
+  Variable mech_next : mstate -> bytes -> (bool * mstate * bytes * bool).
+  Variable p : path.
+  Variable a : advert.
+  Variable sstate : Type.
+  Variable srv_init : sstate.
+  Variable srv_next : sstate -> bytes -> sreply sstate.
+
+  Local Notation stt := (state mstate).
+  Local Notation stp := (step mstate mech_start mech_next p a).
+  Local Notation reach := (reachable mstate mech_start mech_next p a).
+  Local Notation drv := (drive mstate mech_start mech_next p a sstate srv_next).
+  Local Notation crn := (corun mstate mech_next sstate srv_next).
+
+  Lemma drive_reachable : forall n fault k (s : stt) ss, reach s -> reach (drv n fault k s ss).
+  Proof.
+    induction n as [|n IH]; intros fault k s ss R; cbn [drive]; [exact R|].
+    destruct (ph s); try exact R;
+      try (destruct (srv_reply sstate srv_next ss out) as [[ss' pl]|]);
+      match goal with
+      | |- context [match Sasl.step _ _ _ _ _ ?s0 ?l with _ => _ end] =>
+          destruct (Sasl.step mstate mech_start mech_next p a s0 l) eqn:St
+      end; try exact R; apply IH; eapply reach_step; eauto.
+  Qed.
+
+  Lemma first_use_reachable : forall (s : stt) k v,
+    reach s -> reach (first_use mstate mech_start mech_next p a s k v).
+  Proof.
+    intros s k v R. unfold first_use.
+    destruct (stp s (LUse k v)) as [s1|] eqn:E1; [|exact R].
+    assert (R1 : reach s1) by (eapply reach_step; eauto).
+    destruct (stp s1 LUserClose) as [s2|] eqn:E2; [|exact R1].
+    eapply reach_step; eauto.
+  Qed.
+
+  Lemma drive_stuck : forall n fault k (s : stt) ss,
+    ph s = PFailed \/ ph s = PPanicked \/ ph s = PHandedOut \/ ph s = PUserClosed ->
+    drv n fault k s ss = s.
+  Proof.
+    intros n fault k s ss H. destruct n; cbn [drive]; [reflexivity|].
+    destruct H as [H|[H|[H|H]]]; rewrite H; reflexivity.
+  Qed.
+
+  Lemma drive_accepted : forall n fault k (s : stt) ss,
+    accepted_or_out s = true -> accepted_or_out (drv n fault k s ss) = true.
+  Proof.
+    intros n fault k s ss H. destruct n; cbn [drive]; [exact H|].
+    unfold accepted_or_out in H. destruct (ph s) eqn:E; try discriminate H.
+    - unfold step. rewrite E. rewrite drive_stuck; [reflexivity|cbn; tauto].
+    - unfold accepted_or_out. rewrite E. reflexivity.
+    - unfold accepted_or_out. rewrite E. reflexivity.
+  Qed.
+
+  Lemma drive_corun : forall n (s : stt) ss k f i ms out, ph s = PAuth f i ms out ->
+    accepted_or_out (drv n None k s ss) = crn n ms ss out.
+  Proof.
+    induction n as [|n IH]; intros s ss k f i ms out E.
+    - cbn [drive corun]. unfold accepted_or_out. rewrite E. reflexivity.
+    - cbn [drive corun]. rewrite E.
+      destruct (srv_reply sstate srv_next ss out) as [[ss' pl]|].
+      + cbn [pick]. unfold step. rewrite E. unfold on_challenge.
+        destruct (mech_next ms pl) as [[[d ms'] resp] ok]. destruct d, ok.
+        * apply drive_accepted. reflexivity.
+        * rewrite drive_stuck; [reflexivity|cbn; tauto].
+        * eapply IH. reflexivity.
+        * rewrite drive_stuck; [reflexivity|cbn; tauto].
+      + cbn [pick]. unfold step. rewrite E.
+        destruct f; cbn; (rewrite drive_stuck; [reflexivity|cbn; tauto]).
+  Qed.
+
+  Lemma exchange_complete : forall n,
+    0 <= hs_version p a ->
+    accepted_or_out (drv (3 + n) None 0 init (Some srv_init)) =
+    match mech_start with
+    | None => false
+    | Some (ms, out) => crn n ms (Some srv_init) out
+    end.
+  Proof.
+    intros n H. apply Z.ltb_ge in H.
+    change (3 + n)%nat with (S (S (S n))). cbn [drive init ph pick].
+    unfold step at 1. cbn [ph tr pick]. unfold step at 1. cbn [ph tr]. rewrite H.
+    cbn [ph]. unfold step at 1. cbn [ph tr].
+    destruct mech_start as [[ms out]|].
+    - eapply drive_corun. reflexivity.
+    - rewrite drive_stuck; [reflexivity|cbn; tauto].
+  Qed.
+End Run.
+
+Lemma run_case_reachable : forall p a k c fault,
+  reachable nat (shape_start k) (shape_next k) p a (run_case p a k c fault).
+Proof.
+  intros p a k c fault. unfold run_case.
+  match goal with |- context [handed_out ?s] => set (s0 := s) end.
+  assert (R : reachable nat (shape_start k) (shape_next k) p a s0)
+    by (apply drive_reachable; apply reach_init).
+  cbv zeta. destruct (handed_out s0); [apply first_use_reachable|]; exact R.
+Qed.
+
+Definition neglen_advert : advert := {| hs_max := Some 0; auth_max := None |}.
+
+Lemma neglen_pre : forall p,
+  reachable nat (shape_start MPlain) (shape_next MPlain) p neglen_advert
+    (mkState (PAuth Raw O O [T_client_first])
+       [ESend MRaw; ERecv (ROk []); ESend (MReq K_SaslHandshake 0); ERecv (ROk []);
+        ESend (MReq K_ApiVersions 0)]).
+Proof.
+  intros p.
+  eapply reach_step with (l := LBroker (ROk [])).
+  eapply reach_step with (l := LBroker (ROk [])).
+  eapply reach_step with (l := LStart).
+  apply reach_init.
+  reflexivity. destruct p; reflexivity. destruct p; reflexivity.
+Qed.
+
+Lemma neglen_transport_panics :
+  exists (a : advert) (s s' : state nat),
+    reachable nat (shape_start MPlain) (shape_next MPlain) Transport a s /\
+    step nat (shape_start MPlain) (shape_next MPlain) Transport a s (LBroker RNegLen) = Some s' /\
+    ph s' = PPanicked /\ tr s' = EPanic :: ERecv RNegLen :: tr s.
+Proof.
+  exists neglen_advert. eexists. eexists.
+  split; [apply (neglen_pre Transport)|]. split; [reflexivity|]. split; reflexivity.
+Qed.
+
+Lemma neglen_dialer_accepts :
+  exists (a : advert) (s s' : state nat),
+    reachable nat (shape_start MPlain) (shape_next MPlain) Dialer a s /\
+    step nat (shape_start MPlain) (shape_next MPlain) Dialer a s (LBroker RNegLen) = Some s' /\
+    ph s' = PAccepted /\ tr s' = EVerdict :: ERecv RNegLen :: tr s.
+Proof.
+  exists neglen_advert. eexists. eexists.
+  split; [apply (neglen_pre Dialer)|]. split; [reflexivity|]. split; reflexivity.
+Qed.
